@@ -46,9 +46,9 @@ def setup_environment():
     os.makedirs(cdir, exist_ok=True)
     try:
         os.utime(cdir)
-        # Keep the five most recently used cache directories only.
+        # Keep the twelve most recently used cache directories only.
         dirs = sorted(glob.glob(os.path.join(base, '*')), key=os.path.getmtime)
-        for d in dirs[:-5]:
+        for d in dirs[:-12]:
             shutil.rmtree(d, ignore_errors=True)
     except OSError:
         pass
